@@ -1222,6 +1222,17 @@ impl Block {
         //
         let mut tx_index: u64 = 0;
         for tx in self.transactions.iter_mut() {
+            // the payload of a golden ticket transaction has a fixed layout
+            if tx.transaction_type == TransactionType::GoldenTicket && tx.data.len() != 97 {
+                warn!(
+                    "golden ticket transaction in block {} has a malformed payload",
+                    self.id
+                );
+                return Err(Error::new(
+                    ErrorKind::InvalidData,
+                    "malformed golden ticket",
+                ));
+            }
             tx.generate(creator_public_key, tx_index, self.id);
             if let TransactionType::SPV = tx.transaction_type {
                 tx_index += tx.txs_replacements as u64;
